@@ -131,7 +131,9 @@ func e2eUp4FaultWorker(args []string) error {
 		mod  int
 	}
 
-	kinds := []kind{{"estab", -1}, {"far", e2e.ModFar}, {"farsame", e2e.ModFarSame}, {"qer", e2e.ModQer}, {"pdr", e2e.ModPdr}, {"remove", e2e.ModRemove}, {"add", e2e.ModAdd}, {"del", -2}}
+	// (qerasym: the flow QER of a session established with equal rates in both directions gets different ones - a second
+	// meter cell is allocated and configured by the Update QER)
+	kinds := []kind{{"estab", -1}, {"far", e2e.ModFar}, {"farsame", e2e.ModFarSame}, {"qerasym", 11}, {"qer", e2e.ModQer}, {"pdr", e2e.ModPdr}, {"remove", e2e.ModRemove}, {"add", e2e.ModAdd}, {"del", -2}}
 	if p.Crowded {
 		kinds = kinds[:1]
 	}
@@ -146,7 +148,14 @@ func e2eUp4FaultWorker(args []string) error {
 		oneFlow := g.OneFlow
 		g.OneFlow = oneFlow || kd.mod == e2e.ModFarSame // one downlink FAR: the session's only reference to its tunnel peer
 
-		defer func() { g.ForceFwd, g.OneFlow = false, oneFlow }()
+		symQer, alwaysQer, forceSess := g.SymQer, g.AlwaysQer, g.ForceSessQer
+		if kd.mod == 11 {
+			g.SymQer, g.AlwaysQer, g.ForceSessQer = true, true, true
+		}
+
+		defer func() {
+			g.ForceFwd, g.OneFlow, g.SymQer, g.AlwaysQer, g.ForceSessQer = false, oneFlow, symQer, alwaysQer, forceSess
+		}()
 
 		if kd.mod == -1 {
 			w.P4Fault = fault
@@ -168,9 +177,13 @@ func e2eUp4FaultWorker(args []string) error {
 		g.Reseed(shape + 1)
 		w.P4Fault = fault
 
-		if kd.mod == -2 {
+		switch {
+		case kd.mod == -2:
 			g.Delete(s)
-		} else {
+		case kd.mod == 11:
+			g.SymQer = false
+			g.UpdateFlowQerAny(s, "asym")
+		default:
 			g.ModifyKind(s, kd.mod)
 		}
 
